@@ -65,7 +65,7 @@ static void *server(void *arg) {
   int bytewise = strstr(g_desc, "cut=[1, 1") != NULL;
   if (bytewise) { for (size_t i = 0; i < g_reply_len; i++) { send(c, g_reply + i, 1, MSG_NOSIGNAL); usleep(2000); } }
   else if (g_reply_len) send(c, g_reply, g_reply_len, MSG_NOSIGNAL);
-  if (silence) sleep(3);
+  if (silence) sleep(20);   /* far beyond the module time limit (2 s) and the replay deadline (12 s): a module that is still waiting then is not bounded by its timeout */
   close(c);
   return NULL;
 }
